@@ -55,8 +55,12 @@ func c02Specs(tier string, seed int) []c02Spec {
 								{Depos: 0, Fert: "KAS"},
 								{Depos: 20, Fert: "RG", Till: 25},
 							}
+							// tillage depths rotate too (whole and fractional numbers of 10 cm layers)
+							// (tillage below the profile bottom is not a valid input: capped at the profile depth)
+							variants[3].Till = min([]int{25, 15, 30, 28, 10, 35}[(i/8)%6], 10*n)
 							if tier == "quick" {
-								variants = variants[i%4 : i%4+1]
+								// the bare/cropped pair of a grid cell shares one variant (tillage needs bare soil)
+								variants = variants[(i/2)%4 : (i/2)%4+1]
 							}
 							for _, v := range variants {
 								i++
